@@ -327,6 +327,43 @@ def generate(ctx):
         for skipna, pat in (((0, 'none'), (1, 'band')) if quick else ((0, 'none'), (1, 'band'), (0, 'single'), (1, 'row'))):
             yield 'regrid2d', {'src': src, 'tgt': tgt, 'skipna': skipna, 'pattern': pat, 'model': bool(model), 'fkind': 'random',
                                'identity': bool(ident), 'forms': k == 0, 'fseed': int(rng.integers(0, 2 ** 31))}
+    # NEAR-COINCIDENCE: interfaces equal to within 1e-5 .. 1e-12 relative but not equal (both signs)
+    GAPS = [1e-5, 1e-7, 1e-9, 1e-12]
+    #  (a) vertical weights on synthetic bounds: every target interface is a source interface times (1 +- gap)
+    for r in range(4 if quick else 16):
+        m = int(rng.integers(3, 10))
+        sb = np.cumsum(rng.integers(1, 9, size=m + 1)).astype(np.float64) / 64
+        pick = np.unique(np.concatenate([[0, m], rng.integers(0, m + 1, size=4)]))
+        sgn = rng.choice([-1.0, 1.0], size=pick.size); gp = np.array([GAPS[(r + i) % 4] for i in range(pick.size)])
+        tb = sb[pick] * (1 + sgn * gp)
+        ctx.count('near-coincidence: vertical bounds')
+        yield 'vert', {'sb': sb.tolist(), 'tb': tb.tolist(), 'fseed': int(rng.integers(0, 2 ** 31))}
+    #  (b) hybrid -> sigma: sigma interfaces are hybrid interfaces at sp0, columns at sp0 * (1 +- gap)
+    near_h = [('ECMWF137', [40, 60, 75, 90, 105, 120]), ('UFS127', [30, 55, 70, 85, 100, 115]), ('synthetic', [2, 3, 5, 7])]
+    for r, (hname, ks) in enumerate(near_h if quick else near_h * 3):
+        sp0 = [1000.0, 850.0, 1013.25][r % 3] + (0.0 if r < 3 else float(rng.integers(-100, 100)))
+        sg = rng.choice([-1.0, 1.0], size=4)
+        sp = (sp0 * (1 + sg * np.array(GAPS if r % 2 == 0 else GAPS[::-1]))).reshape(2, 2)
+        ab = None
+        if hname == 'synthetic':
+            up = np.concatenate([[0.0], np.cumsum(rng.integers(1, 40, size=4)).astype(np.float64)])
+            ab = {'a': np.concatenate([up, np.linspace(up[-1], 0.0, 6)[1:]]).tolist(), 'b': np.concatenate([np.zeros(5), np.linspace(0.0, 1.0, 6)[1:]]).tolist()}
+        ctx.count('near-coincidence: hybrid vs sigma interfaces')
+        yield 'hybrid', {'hyb': hname, 'ab': ab, 'sigma': [0.0, 1.0], 'sigma_near': {'sp0': sp0, 'ks': ks}, 'sp': sp.tolist(),
+                         'fseed': int(rng.integers(0, 2 ** 31))}
+    #  (c) nearly identical latitude grids (spacing / node positions perturbed) and longitude grids (tiny offsets)
+    for r in range(6 if quick else 24):
+        gp = GAPS[r % 4]; sg = [-1.0, 1.0][(r // 4) % 2]
+        n = [8, 12, 6, 16, 5, 24][r % 6]
+        base = np.asarray(lat_centres(['equiangular', 'gauss', 'equiangular_with_poles'][r % 3], n, rng))
+        if r % 2 == 0: tx = base * (1 + sg * gp)                      # spacing perturbed
+        else: tx = base + sg * gp * np.where(np.arange(n) % 2 == 0, 1.0, -0.5) * (np.abs(base) < 1.5)   # nodes jittered
+        ctx.count('near-coincidence: latitude grids')
+        yield 'lat', {'sx': base.tolist(), 'tx': np.clip(tx, -HPI, HPI).tolist(), 'fseed': int(rng.integers(0, 2 ** 31))}
+        ns = [8, 64, 5, 16, 3, 32][r % 6]
+        ctx.count('near-coincidence: longitude grids')
+        yield 'lon', {'sx': lon_centres('uniform', ns, 0.3, rng), 'tx': lon_centres('uniform', ns, 0.3 + sg * gp * (1.0 if r % 2 else PERIOD / ns), rng),
+                      'fseed': int(rng.integers(0, 2 ** 31))}
     # small valid fractions under skipna=True: strong coarsening with (almost) everything NaN, and nearly aligned grids
     # where the only valid neighbour of a target cell is a sliver overlap
     tiny = [({'nlon': 128, 'nlat': 64, 'spacing': 'gauss', 'offset': 0.0}, {'nlon': 4, 'nlat': 2, 'spacing': 'equiangular', 'offset': 0.05}, 'inv:single', False),
@@ -570,7 +607,12 @@ def r_hybrid(ctx, a):
     h = _hybrid(a)
     if h is None:
         ctx.count('hybrid:unavailable:' + a['hyb']); return
-    sig = sc.SigmaCoordinates(np.asarray(a['sigma'], dtype=np.float64))
+    sigma = a['sigma']
+    if a.get('sigma_near'):      # sigma interfaces = hybrid interfaces k at the reference pressure sp0 (near-coincidence at sp0*(1 +- gap))
+        ha = np.asarray(h.a_boundaries, dtype=np.float64); hb_ = np.asarray(h.b_boundaries, dtype=np.float64)
+        vals_ = [float(ha[k] / a['sigma_near']['sp0'] + hb_[k]) for k in a['sigma_near']['ks']]
+        sigma = sorted(set([0.0, 1.0] + [v for v in vals_ if 1e-6 < v < 1 - 1e-6]))
+    sig = sc.SigmaCoordinates(np.asarray(sigma, dtype=np.float64))
     sp = np.asarray(a['sp'], dtype=np.float64)
     m, n = h.layers, sig.layers
     x = _field(a['fseed'], (m,) + sp.shape, 200 * 8, 300 * 8)
